@@ -97,7 +97,7 @@ def window_geobox(rng: random.Random, entry, npix: Tuple[int, int] = (32, 32), e
     x0, x1, y0, y1 = min(xs), max(xs), min(ys), max(ys)
     ny, nx = npix
     rx, ry = (x1 - x0) / nx, (y1 - y0) / ny
-    r = max(rx, ry)
+    r = min(rx, ry)  # square pixels, box stays inside the window
     if fam == "north-up":
         A = Affine(r, 0, x0, 0, -r, y0 + r * ny)
     elif fam == "rotated":
